@@ -21,13 +21,17 @@ import (
 var (
 	// faulting kinds: uncaught THROW in the entry contract / in a callee / rethrown
 	// by a handler / crossing a native frame, ABORT, failing native call
-	multiF = []string{"A[E!]", "A[EBf[E!]]", "A[T{Bf[E!]}{E!}]", "A[$gB[E!]]", "A[E#]", "A[E~]"}
+	// hand-assembled scripts: fault by the rethrow at ENDFINALLY (handler left in FINALLY state, exception
+	// pending), by a lost pending exception, by a failing callee called from a CATCH part
+	multiF = []string{"A[E!]", "A[EBf[E!]]", "A[T{Bf[E!]}{E!}]", "A[$gB[E!]]", "A[E#]", "A[E~]",
+		"H[{Bf[E]Cf[E!]||Bf[E]}]", "H[{!|Cf[E!]|Af[T{!}{}]}]", "H[{{!|Cf[E!]}||Bf[E]}]"}
 	// successors: calls inside TRY that succeed, payment callbacks, deployment
 	// (with and without TRY), calls after a self-caught throw, caught callee failures
 	multiP = []string{
 		"A[T{Bf[E]}{}E]", "A[ET{EBf[EP]E}{E}E]", "A[T{Bf[Cf[E]]}{}]", "A[Bf[T{Cf[E]}{}]]", "A[T{Bd[N]}{}]",
 		"A[$gB[E]]", "A[$sB[EX]]", "A[$nB[E]X]", "A[T{$gB[E]}{}]", "A[Bf[$gC[E]]]",
 		"A[Y]", "A[T{Bf[Y]}{}]", "A[T{!}{Bf[E]}E]", "A[T{!}{E}$gB[E]]", "A[T{Bf[E!]}{E}Cf[E]]", "A[FT{Bf[F]}{}]", "A[T{KBf[U]}{}]",
+		"H[{{!|Cf[E!]}|Bf[E]}Bf[E]]", "H[{Bf[E]|Bf[E]|Cf[E]}{Cf[E!]|Bf[E]}]", "A[Cf[I[T{Bf[Cf[PE]!]}{}]]]",
 	}
 	multiP2 = []string{"A[T{Cf[E]}{}X]", "A[$gC[P]]"}
 )
